@@ -153,6 +153,11 @@ def module_text(ir, k, nstmts=None):
     # module globals that hold a bound native method / a bound method / a class: `m.name(...)` must call them like any other value
     out.append("var store = [0]; var pushit = store.push;")
     out.append("#[constructor(new)] class Acc { fn add(self, x) { self.n = self.n + x; return self.n; } } var acc0 = Acc.new(); acc0.n = 0; var addit = acc0.add;")
+    out.append("var nothing = nil;")       # a global that holds nil is still an attribute of the module
+    # 140 more globals: together with their values well over 256 constants in this module's top-level chunk (the number of constants
+    # before them differs from module to module, so every constant-pool index near 256 is a global's name in some module)
+    out.append(" ".join("var V%d_%d = %d;" % (k, j, 1000 * k + j) for j in range(140)))
+    out.append("fn sumv() { return %s; }" % " + ".join("V%d_%d" % (k, j) for j in range(140)))
     out.append("fn getg() { return gv; }")
     out.append("fn pipeline() { return [1, 2, 3].iter().map(|x| { return x + gv - gv + 1; }).filter(|x| { return x > 2; }).collect(); }")
     # a second global under a name that differs per module (so that no coincidence of name hashes can hide a stale look-up)
@@ -237,6 +242,8 @@ def render(ir):
     # three different files whose paths differ only in leading `../` components are three different modules
     e('fn pathmods() { import "px"; import "../px" as pxu; import "../../px" as pxuu; px.gv = px.gv + 1; return (px.gv, pxu.gv, pxuu.gv, px == pxu, pxu == pxuu); }')
     e("var auxset = [%s];" % ", ".join("|m, x| { var b = m.getaux(); m.aux%d = x; return (b, m.getaux(), m.aux%d); }" % (k, k) for k in range(n)))
+    # reads one of the 140 globals of module k as an attribute (which one: decided at run time)
+    e("var vget = [%s];" % ", ".join("|m, x| { var t = [%s]; return t[x %% 40]; }" % ", ".join("m.V%d_%d" % (k, 100 + j) for j in range(40)) for k in range(n)))
     e("var imps = [%s];" % ", ".join("imp%d" % k for k in range(n)))
     # an import attempted with the call stack one frame short of its limit: running the module body is refused (IndexError), which
     # the importing function catches like any other failure of the import
@@ -274,7 +281,7 @@ def render(ir):
     e('    if type(r) == String { print(("ev", "fib", k, r)); } else { print(("ev", "fib", k, r != nil)); record(k, r); }')
     e("  } else if a == 8 {")
     e("    if mods[k] != nil {")
-    e('      print(("ev", "iso", k, mods[k].peek(), mods[k].builtins(), mods[k].own, mods[k].peek_class(), mods[k].peek_fn(), mods[k].shadowed(), mods[k].pushit(7).len(), mods[k].addit(2), mods[k].Acc.new() != nil, same_builtins(mods[k].builtin_classes()), mods[k].builtin_fns(), mods[k].assigned() == BuiltInMethod, mods[k].assigned() == 7000 + k, mods[k].pipeline(), type));')
+    e('      print(("ev", "iso", k, mods[k].peek(), mods[k].builtins(), mods[k].own, mods[k].peek_class(), mods[k].peek_fn(), mods[k].shadowed(), mods[k].pushit(7).len(), mods[k].addit(2), mods[k].Acc.new() != nil, same_builtins(mods[k].builtin_classes()), mods[k].builtin_fns(), mods[k].assigned() == BuiltInMethod, mods[k].assigned() == 7000 + k, mods[k].pipeline(), type, mods[k].nothing == nil, mods[k].sumv(), vget[k](mods[k], v)));')
     e('      try { mods[k].MainOnlyClass; print(("ev", "attr-leak", k)); } catch e { print(("ev", "attr2", k, type(e))); }')
     e('      try { mods[k].no_such_attribute; } catch e { print(("ev", "attr", k, type(e))); }')
     e('      try { print(("ev", "leak", own)); } catch e { print(("ev", "noleak", type(e))); }')
@@ -539,7 +546,8 @@ def model(ir, tape, faults, chooser=None):
                     ev.append([s("iso"), num(k), cls("NameError"), tup(b(True), num(2), num(2), num(4)), num(k),
                                cls("NameError"), cls("NameError"), tup(num(5000 + k), num(6000 + k)),
                                num(1 + isos[k]), num(2 * isos[k]), b(True), num(2626 if k % 2 == 0 else 2526), tup(b(True), b(True), b(True), b(True), b(True)),
-                               b(k % 2 == 0), b(k % 2 == 1), {"v": [num(3), num(4)]}, num(4243)])
+                               b(k % 2 == 0), b(k % 2 == 1), {"v": [num(3), num(4)]}, num(4243), b(True),
+                               num(sum(1000 * k + j for j in range(140))), num(1000 * k + 100 + v % 40)])
                     ev.append([s("attr2"), num(k), cls("AttributeError")])
                     ev.append([s("attr"), num(k), cls("AttributeError")])
                     ev.append([s("noleak"), cls("NameError")])
@@ -663,6 +671,8 @@ class C14:
             return {"default_loader": True}       # one fixed case per run: the interpreter's own loader and a file that does not exist
         if idx == 1:
             return {"host_printer": True}         # ... and one in which the host installs its printer again mid-session
+        if idx == 2:
+            return {"host_peek": True}            # ... and one in which the host looks module globals up before any import
         cseed = derive(seed, "C14", idx)
         ir = gen_ir(cseed)
         rng = Rng(derive(cseed, "tape"))
@@ -707,6 +717,37 @@ fn print(x) { log.push(x); return log.len(); }
 fn say(x) { return print(x); }
 """
 
+    def check_host_peek(self, sc, ctx):
+        """The host looks globals of modules up BEFORE the script imports them: one module exists, one does not. Whatever that does to
+        the module table, a module that does not exist is still an ImportError for the importing statement, and a module that
+        exists either loads (its code runs) or is refused with an ImportError - never silently replaced by an empty one."""
+        stats = Stats()
+        stats.inc("host_peek_cases")
+        src = ('fn imp(p) { return 0; }\n'
+               'var a = "none"; try { import "hp_missing"; a = "bound"; } catch e { a = type(e); }\n'
+               'var b2 = "none"; try { import "hp_real"; b2 = hp_real.tag; } catch e { b2 = type(e); }\n'
+               'print(("ev", "peek", a, b2));\n')
+        progs = [{"kind": "peek", "module": "hp_missing", "name": "x"}, {"kind": "peek", "module": "hp_real", "name": "tag"},
+                 {"kind": "snippet", "source": src}]
+        run_sc = {"programs": progs, "fs": {"hp_real": {"source": 'print(("ev", "load-hp"));\nvar tag = 77;\n', "reads": []}},
+                  "tape": [], "faults": {}, "config": {}}
+        res = {"stats": stats, "nontrivial": False, "key": 3, "scenario": dict(sc)}
+        ok_variants = ([[s("peek"), cls("ImportError"), cls("ImportError")]],                       # both refused
+                       [[s("load-hp")], [s("peek"), cls("ImportError"), num(77)]])                  # the real one loads
+        for config in ("checked", "release"):
+            h = ctx.run(config, run_sc)
+            stats.inc("executions")
+            po = process_outcome(h)
+            if po:
+                res["violation"] = {"class": po[0], "msg": "[%s] host peek: %s" % (config, po[1])}
+                return res
+            got = h["programs"][2]["events"]
+            if got not in ok_variants or not h["programs"][2]["outcome"].get("ok"):
+                res["violation"] = {"class": "host-peek", "msg": "[%s] imports after the host looked the modules up: %s (%s)" % (
+                    config, json.dumps(got)[:300], json.dumps(h["programs"][2]["outcome"])[:120])}
+                return res
+        return res
+
     def check_host_printer(self, sc, ctx):
         """A module has a global of its own called `print`; the host installs its printer again between two snippets."""
         stats = Stats()
@@ -736,6 +777,8 @@ fn say(x) { return print(x); }
             return self.check_default_loader(sc, ctx)
         if sc.get("host_printer"):
             return self.check_host_printer(sc, ctx)
+        if sc.get("host_peek"):
+            return self.check_host_peek(sc, ctx)
         stats = Stats()
         ir = sc["ir"]
         try:
@@ -788,7 +831,7 @@ fn say(x) { return print(x); }
 
     def shrink(self, sc):
         import copy
-        if sc.get("default_loader") or sc.get("host_printer"):
+        if sc.get("default_loader") or sc.get("host_printer") or sc.get("host_peek"):
             return
         ir = sc["ir"]
         for site in sorted(sc["faults"]):
